@@ -20,3 +20,23 @@ fn mean3_any_order(r: f32, q0: f32, q1: f32, q2: f32) -> bool {
 fn close(r: f32, want: f32, rel: f32) -> bool {
     (r.is_nan() && want.is_nan()) || r == want || (r - want).abs() <= rel * (1.0 + want.abs())
 }
+/// Square root that is EXACT on the (at most 3) perfect squares announced by the harness and the ghost
+/// (uninterpreted, axiomatised) function elsewhere.  The harness announces (k*k, k) only for integers k,
+/// where the IEEE square root is exactly k, so this is the real function on the announced arguments.
+#[allow(dead_code)] static mut SQ_ARG: [f32; 3] = [-1.0; 3];
+#[allow(dead_code)] static mut SQ_RES: [f32; 3] = [0.0; 3];
+#[allow(dead_code)]
+fn sqrt_tab32(x: f32) -> f32 {
+    unsafe {
+        if x == SQ_ARG[0] { return SQ_RES[0]; }
+        if x == SQ_ARG[1] { return SQ_RES[1]; }
+        if x == SQ_ARG[2] { return SQ_RES[2]; }
+    }
+    ghost_sqrt32(x)
+}
+/// announce that sqrt(k*k) == k in slot i; returns k*k
+#[allow(dead_code)]
+fn announce_root(i: usize, k: i32) -> i32 {
+    unsafe { SQ_ARG[i] = (k * k) as f32; SQ_RES[i] = k as f32; }
+    k * k
+}
